@@ -62,12 +62,18 @@ def run(ctx):
     prefix_case = [None]
     tmpl_seen = [None]
     distinct, nontrivial, samples = set(), set(), []
+    dns_keys, hostile_samples = {}, []
+    deps_compared = [0]
 
     def process(lines, label):
         cases = []
         for l in lines:
             if l.startswith("T "):
                 tmpl_seen[0] = l[2:]
+            elif l.startswith("K "):
+                f = l.split(" ")
+                if len(f) == 3:
+                    dns_keys[f[1]] = f[2]
             elif l.startswith("STATS "):
                 for k, v in json.loads(l[6:]).items():
                     if isinstance(v, dict):
@@ -88,6 +94,8 @@ def run(ctx):
         tot[label] = tot.get(label, 0) + len(cases)
         if len(samples) < 6:
             samples.extend(c["H"] for c in cases[:2])
+        if label == "hostile" and len(hostile_samples) < 8:
+            hostile_samples.extend(c["H"] for c in cases[:50:7])
         # the property, evaluated by the Lean judge on the listings of the real cluster
         verdicts = ctx.driver("judge", [c["J"] for c in cases])
         for c, v in zip(cases, verdicts):
@@ -117,6 +125,8 @@ def run(ctx):
             primary, prefix = out.split(" ## ")
             d = _diff(c["O"], primary)
             if d is None:
+                deps_compared[0] += sum(len([x for x in _fields(b).get("D", "-").split(",") if x != "-"])
+                                        for b in c["O"].split(";"))
                 if primary == prefix:
                     tot["both"] += 1
                 continue
@@ -144,6 +154,19 @@ def run(ctx):
     if not getattr(ctx, "harness_ok", False):
         ctx.broken("harness does not build against the current tree", detail="\n".join(ctx.build_errors))
     else:
+        # hostile-name family first (deterministic part + random part): Gateway namespaces/names containing the manifest's
+        # arg names, prefixes/suffixes/swaps of each other, single and multi-Gateway batches
+        process(harness(["-hostile", "-seed", ctx.seed, "-n", 150 if ctx.tier == "quick" else 10000, "-maxbatches", 8]),
+                "hostile")
+        # tie of the DNS-1123 predicates of the model (hypotheses of the arg theorems) to apimachinery's validators
+        if dns_keys:
+            ks = sorted(dns_keys)
+            for k, got in zip(ks, ctx.driver("dns", ks)):
+                if got != dns_keys[k]:
+                    stats["dns_predicate_diffs"] += 1
+                    if stats["dns_predicate_diffs"] <= 3:
+                        ctx.broken(f"dnsLabel/dnsSubdomain of the model disagree with apimachinery on {k!r}",
+                                   replay={"key": k, "apimachinery": dns_keys[k], "model": got})
         process(harness(["-exhaustive", 3 if ctx.tier == "quick" else 5]), "exhaustive")
         chunk, done, i = 1000, 0, 0
         known_sigs = {k["signature"] for k in vcheck.load_known().get("C18", [])}
@@ -208,7 +231,10 @@ def run(ctx):
     ctx.finish({
         "evaluations": tot["cases"],
         "distinct_nontrivial": len(nontrivial),
-        "rule": "corpus + ALL op histories up to length 3 (quick) / 5 (thorough) over 2 Gateways x 2 classes and 2 GatewayClasses "
+        "rule": "corpus + hostile-name family (25 fixed DNS-1123 keys containing leader-election-lock-name / gateway / gatewayclass / "
+                "config / service / '--', prefixes, suffixes, swaps and re-bracketings of each other: each alone at start-up and in a later "
+                "batch with delete + re-create, pairs becoming provisionable in ONE batch, then random histories over 4 keys drawn from the "
+                "pool / generated from arg-name fragments / derived as prefix-suffix-swap) + ALL op histories up to length 3 (quick) / 5 (thorough) over 2 Gateways x 2 classes and 2 GatewayClasses "
                 "(singleton batches and one big batch) + random histories of create/update(class change)/delete/re-create of <=4 "
                 "Gateways and 3 GatewayClasses in random batches against the real eventHandler + fake client + real status.Updater; every batch compared with the Lean "
                 "model (provisions, Deployments with args, statuses, store, next id, panic) and judged; non-trivial = distinct "
@@ -222,6 +248,11 @@ def run(ctx):
         "corpus_cases": tot.get("corpus", 0),
         "exhaustive_small_scope_cases": tot.get("exhaustive", 0),
         "generated_cases": tot.get("generated", 0),
+        "hostile_name_cases": tot.get("hostile", 0),
+        "hostile_name_samples": hostile_samples,
+        "deployment_arg_lists_compared_with_prepareArgs": deps_compared[0],
+        "dns1123_keys_compared_with_apimachinery": len(dns_keys),
+        "dns1123_keys_valid": sum(1 for v in dns_keys.values() if v == "11"),
         "judge_clause_histogram": dict(clause_count),
         "generator": {k: (dict(v) if isinstance(v, dict) else v) for k, v in hstats.items()},
         "other": dict(stats),
@@ -231,7 +262,9 @@ def run(ctx):
         "by the harness); every cluster change yields one event; a handler panic ends the process (history stops there)",
         "precondition: the configured GatewayClass exists when the provisioner starts (start-up without it panics by design and is "
         "counted, not reported)",
-        "CRD bundle version is the supported one (ValidateCRDVersions adds no conditions); names are DNS labels (no '/')",
+        "CRD bundle version is the supported one (ValidateCRDVersions adds no conditions); Gateway namespaces are DNS-1123 labels and "
+        "names DNS-1123 subdomains (dnsKey of the model, compared with apimachinery's IsDNS1123Label/IsDNS1123Subdomain on every "
+        "generated key and on 16 illegal or boundary ones)",
     ], trusted=[
         "overlay/internal/mode/provisioner/zz_verif_c18.go (in-package constructor/accessors, build tag verif)",
     ])
